@@ -101,3 +101,39 @@ Theorem C02_orphan_pass_sound :
   forall (sem : string -> list nat -> list V -> option (list V)) fuel g e, refines V veq sem g (orphan_pass fuel g) e.
 Proof. exact orphan_pass_sound. Qed.
 Print Assumptions C02_orphan_pass_sound.
+
+(* ---- a third pass verified end to end: remove_identity_reshapes_ir, for every annotated SSA graph over tensors
+        of any element type whose shape/constant annotations are true at run time (that is property C08);
+        generic rewrite lemma (Redirect.v) + row-major reshape algebra for every rank and extent (Reshape.v) *)
+From J2O Require Import Tensor Redirect Reshape IdReshapePass.
+Theorem C02_redirect_remove_sound :
+  forall (V : Type) (veq : V -> V -> Prop), (forall a, veq a a) -> (forall a b, veq a b -> veq b a) ->
+  (forall a b c, veq a b -> veq b c -> veq a c) ->
+  forall sem : string -> list nat -> list V -> option (list V),
+  (forall op ats vs vs' o, Forall2 veq vs vs' -> sem op ats vs = Some o -> exists o', sem op ats vs' = Some o' /\ Forall2 veq o o') ->
+  forall g e o x, ssa V (g_nodes g) e -> x <> o ->
+    (forall ef a, eval V sem (g_nodes g) e = Some ef -> ef o = Some a -> exists b, ef x = Some b /\ veq a b) ->
+    avail_before V sem (g_nodes g) e x o ->
+    refines V veq sem g (redirect_remove o x g) e.
+Proof. exact redirect_remove_sound. Qed.
+Print Assumptions C02_redirect_remove_sound.
+
+Theorem C02_reshape_identity : forall (A : Type) (x : tensor A), teq (reshape (shape x) x) x.
+Proof. exact @reshape_identity. Qed.
+Print Assumptions C02_reshape_identity.
+
+Theorem C02_reshape_reshape : forall (A : Type) (s1 s2 : list nat) (x : tensor A),
+  prod s2 = prod s1 -> teq (reshape s2 (reshape s1 x)) (reshape s2 x).
+Proof. exact @reshape_reshape. Qed.
+Print Assumptions C02_reshape_reshape.
+
+Theorem C02_idreshape_pass_sound :
+  forall (A : Type) (sem : string -> list nat -> list (tensor A) -> option (list (tensor A))),
+  (forall op ats vs vs' o, Forall2 teq vs vs' -> sem op ats vs = Some o -> exists o', sem op ats vs' = Some o' /\ Forall2 teq o o') ->
+  forall denotes : tensor A -> list Z -> Prop,
+  (forall ats vs o, sem "Reshape"%string ats vs = Some o ->
+     exists x sv, vs = [x; sv] /\ forall tgt, denotes sv tgt -> Forall (fun d => (0 <= d)%Z) tgt -> o = [reshape (map Z.to_nat tgt) x]) ->
+  forall fuel g e, admissible_along A sem denotes fuel g e ->
+    refines (tensor A) teq sem (rg_graph g) (rg_graph (idreshape_pass fuel g)) e.
+Proof. exact IdReshapePass.idreshape_pass_sound. Qed.
+Print Assumptions C02_idreshape_pass_sound.
